@@ -67,6 +67,7 @@ type txbDraft struct {
 type txbExec struct {
 	e      *WEnv
 	api    *api.APIServer
+	apiWM  *masswallet.WalletManager
 	hist   []string // op lines of the current history (for the judge batch)
 	res    []string // judgetx line to insert after hist[i] ("" = none)
 	judged int      // number of results already judged
@@ -171,6 +172,7 @@ func txbErrClass(err error) string {
 	case txscript.ErrFrozenPeriod:
 		return "err:frozen"
 	}
+	// API errors (gRPC status): only the classes the property talks about are kept apart
 	if st, ok := status.FromError(err); ok {
 		switch int(st.Code()) {
 		case api.ErrAPIBigTransactionFee:
@@ -181,8 +183,6 @@ func txbErrClass(err error) string {
 			return "err:overfull"
 		case api.ErrAPINotEnoughInputs:
 			return "err:notenough"
-		case api.ErrAPINoAddressInWallet:
-			return "err:noaddr"
 		}
 	}
 	return "err:other"
@@ -479,7 +479,8 @@ func (x *txbExec) failed(err error) (string, string) {
 }
 
 func (x *txbExec) apiSrv(e *WEnv) *api.APIServer {
-	if x.api == nil {
+	if x.api == nil || x.apiWM != e.wm { // a restart replaces the WalletManager
+		x.apiWM = e.wm
 		s, err := api.NewAPIServer(e.srv, e.wm, func() {}, e.cfg)
 		if err != nil {
 			panic(err)
@@ -717,9 +718,12 @@ func (x *txbExec) op(e *WEnv, a []string) (string, string) {
 		if err != nil {
 			return txbErrClass(err), ""
 		}
-		cs, _, err := e.wm.VerifEligibleUtxos(addrs, massutil.MaxAmount())
+		cs, full, err := e.wm.VerifEligibleUtxos(addrs, massutil.MaxAmount())
 		if err != nil {
 			return txbErrClass(err), ""
+		}
+		if full {
+			return "many", "" // the selector kept k coins: the listing would be truncated to the k largest
 		}
 		var items []string
 		for _, c := range cs {
